@@ -3,6 +3,9 @@ package props
 // Sub-packages holding one check each register themselves on import.
 import (
 	_ "verif/harness/props/c07"
+	_ "verif/harness/props/c15"
+	_ "verif/harness/props/c16"
 	_ "verif/harness/props/c17"
 	_ "verif/harness/props/c18"
+	_ "verif/harness/props/c48"
 )
